@@ -504,6 +504,11 @@ def do_op(ctx, op, entry):
     elif name == "settle":
         # a long sleep expires only at quiescence: every other thread has run until it blocks
         S.point(lambda: False, 7200.0, label="settle")
+    elif name == "expect_resolved":
+        # which futures are still unresolved now (asked at quiescence, the caller still alive)
+        entry["value"] = sorted(k for k, f in rec.futures.items() if not f.done())
+        entry["alive_workers"] = sorted(p.label for p in S.procs.values()
+                                        if p.label.startswith("worker") and p.alive)
     elif name == "account":
         parent = S.procs[K.PARENT_PID]
         entry["value"] = dict(
